@@ -87,7 +87,17 @@ def repo_facts():
     l = ast.unparse(ls)
     _pos(l, 'if self.props.encrypted and self.props.mac(digest) != bytes.fromhex(tag):')
     _pos(l, 'self._aiter(self.backend.list_files, self.SNAPSHOT_PREFIX)')
+    # a snapshot that is listed, carries our tag and fails verification aborts the command: nothing is skipped silently
+    inner = pyast.find_func(ls, '_download_snapshot')
+    assert not [n for n in ast.walk(inner) if isinstance(n, ast.Try)], '_download_snapshot must not swallow errors'
+    dts = pyast.find_func(R, '_download_snapshot_threadsafe')
+    raises = [n for n in ast.walk(dts) if isinstance(n, ast.Raise)]
+    assert raises and all('ReplicatError' in ast.unparse(r) for r in raises), 'digest mismatch must raise'
+    assert not [n for n in ast.walk(dts) if isinstance(n, ast.Try) and any('ReplicatError' in ast.unparse(h) or h.type is None for h in n.handlers)]
+    body_async_for = [n for n in ast.walk(ls) if isinstance(n, ast.AsyncFor)]
+    assert not [n for f in body_async_for for n in ast.walk(f) if isinstance(n, ast.Try)], 'no error swallowing while collecting snapshots'
     out.append('Definition fact_load_skips_foreign_tags : bool := true.')
+    out.append('Definition fact_load_aborts_on_corrupted_snapshot : bool := true.')
     dec = ast.unparse(pyast.find_func(R, '_decrypt_snapshot_body'))
     _pos(dec, "data = self.props.decrypt(body['data'], self.props.userkey)")
     i_exc = _pos(dec, "except exceptions.DecryptionError:")
